@@ -117,3 +117,8 @@ func VerifJobToken(runner *Runner, jobID string) string {
 	_ = runner.store.GetObject(server.JobDataIndex, jobID, st)
 	return st.ContinuationToken
 }
+
+// VerifParseSource builds a source from its JSON configuration the way the scheduler does for a job.
+func VerifParseSource(s *Scheduler, cfg map[string]interface{}, transform map[string]interface{}) (jobSource.Source, error) {
+	return s.parseSource(&JobConfiguration{Source: cfg, Transform: transform})
+}
